@@ -58,6 +58,8 @@ type Expr struct {
 	Mode int     `json:"mode,omitempty"` // whitespace mode (LTrim/RTrim)
 	Memo bool    `json:"memo,omitempty"` // extra Memoize wrapper around this node
 	Name string  `json:"name,omitempty"` // .Name(...)
+	RS   bool    `json:"rs,omitempty"`   // sequence-like nodes: .HandleResult(ReturnSingle()): a one-element result is the element itself
+	Tok  string  `json:"tok,omitempty"`  // sequence-like nodes: .Token(...)
 	ID   int     `json:"-"`
 }
 
@@ -67,7 +69,10 @@ func (e *Expr) ch() byte { return e.Ch[0] }
 type Grammar struct {
 	Rules []*Expr `json:"rules"`
 	Layer []int   `json:"layer"`
-	all   []*Expr
+	// RuleNames[i] != "": the rule's parser is Memoize(body).Name(RuleNames[i]) - the name sits
+	// outside the memoization (only applied to memoized rules)
+	RuleNames []string `json:"ruleNames,omitempty"`
+	all       []*Expr
 }
 
 // number assigns IDs in pre-order; must be called after every structural change.
@@ -111,6 +116,12 @@ func (e *Expr) String() string {
 		}
 		s = kindNames[e.K] + "(" + strings.Join(parts, ", ") + ")"
 	}
+	if e.RS {
+		s += ".ReturnSingle"
+	}
+	if e.Tok != "" {
+		s += ".Token(" + e.Tok + ")"
+	}
 	if e.Memo {
 		s = "M[" + s + "]"
 	}
@@ -127,7 +138,11 @@ func (g *Grammar) String() string {
 		if i < len(g.Layer) {
 			l = g.Layer[i]
 		}
-		fmt.Fprintf(&sb, "N%d(L%d) -> %s; ", i, l, r)
+		nm := ""
+		if i < len(g.RuleNames) && g.RuleNames[i] != "" {
+			nm = ".Name(" + g.RuleNames[i] + ")"
+		}
+		fmt.Fprintf(&sb, "N%d(L%d)%s -> %s; ", i, l, nm, r)
 	}
 	return sb.String()
 }
@@ -142,7 +157,7 @@ func (g *Grammar) clone() *Grammar {
 		}
 		return &c
 	}
-	ng := &Grammar{Layer: append([]int(nil), g.Layer...)}
+	ng := &Grammar{Layer: append([]int(nil), g.Layer...), RuleNames: append([]string(nil), g.RuleNames...)}
 	for _, r := range g.Rules {
 		ng.Rules = append(ng.Rules, cl(r))
 	}
